@@ -36,6 +36,10 @@ theorem fromV3SecTable_is_code : KinModel.Gen.fromV3SecTable = fromV3SecTable :=
 theorem toV3OpTable_is_code : KinModel.Gen.toV3OpTable = toV3OpTable := by decide
 theorem fromV3OpTable_is_code : KinModel.Gen.fromV3OpTable = fromV3OpTable := by decide
 
+/-- the reference prefixes and the candidate names of the body parameter are the code's -/
+theorem ref2To3_is_code : KinModel.Gen.ref2To3 = ref2To3 := by decide
+theorem bodyParamNames_is_code : KinModel.Gen.bodyParamNameRows.map (·.1) = bodyParamNames := by decide
+
 /-- **copies_complete**: at every site every constraint field of that site (and type / format / required where
     the site copies them itself) is copied from the field of the same name -/
 theorem copies_complete :
